@@ -293,7 +293,7 @@ def run(ctx):
     out.rule = ('complete small scope (see exhaustive_slice) + random sets of 1-4 migrations with gaps, 1-6 requests, '
                 'faults in bodies and in save_applied_number, resume-by-repeat; outputs per request: raised?, recorded '
                 'version, schema, invocation trace; plus the SQL set on SQLite (two set objects on one database, faults in '
-                'create_all and in the version write) and the Mongo set on the fake client; non-trivial = >=2 requests or a fault')
+                'create_all and in the version write) and the Mongo set on the fake client; the Mongo set at version 3 over 1-5 stored policies in the 1.2.0 layout with a client error at the j-th re-save of step 4 (raise and version 3, or step complete; the repeated request completes it); non-trivial = >=2 requests or a fault')
     out.rule += '; by-number requests include 0 (a number no migration has); the SQL set runs on a database file and the recorded version and the tables are read through another connection after every request'
     return out
 
@@ -437,6 +437,79 @@ def _sql_and_mongo(ctx, out, rng):
                     out.failures.append(f)
                     break
         out.nontriv('mongo ' + ' '.join(hist))
+    _mongo_step_faults(ctx, out, rng)
+
+
+def _mongo_step_faults(ctx, out, rng):
+    """Mongo set, a client error inside the body of step 4 (the re-save of one of the stored policies fails): the request either
+    raises and leaves the recorded version at 3, or it has completed the step; repeating the request completes it"""
+    from vakt.policy import Policy
+    from vakt.rules import Eq
+    for _ in range(ctx.budget(10, 200)):
+        client = FakeMongoClient(pick(rng, ['4.0.0', '4.4.0']))
+        st = MongoStorage(client, 'db')
+        ms = MongoMigrationSet(st)
+        for k in (1, 2, 3):
+            Migrator(ms).up(k)
+        npol = rng.randint(1, 5)
+        kinds = []
+        for i in range(npol):
+            if rng.random() < 0.75:
+                st.add(Policy('p%d' % i, actions=['<get|put>', 'x'], subjects=['s<.*>'], resources=['r%d' % i], effect='allow'))
+                kinds.append('string')
+            else:
+                st.add(Policy('p%d' % i, actions=[Eq('get')], subjects=[{'n': Eq(i)}], resources=[Eq('r')], effect='deny'))
+                kinds.append('rule')
+        compiled = [st.condition_field_compiled_name(f) for f in st.condition_fields]
+        for d in st.collection.docs:                  # the 1.2.0 layout: no *_compiled_regex fields yet
+            for c in compiled:
+                d.pop(c, None)
+        j = rng.randrange(npol)
+        exc = pick(rng, [RuntimeError, OSError, ValueError, KeyError])('injected client fault')
+        st.collection.fail_next = ('update_one', exc, j)
+        req = pick(rng, [None, 4])
+        hist = ['up(1)', 'up(2)', 'up(3)', 'add %s' % ','.join(kinds), 'update_one #%d fails' % (j + 1), 'up(%s)' % ('' if req is None else req)]
+
+        def complete():
+            idx = set(st.collection.indexes)
+            missing = [d['_id'] for d, kd in zip(st.collection.docs, kinds) if kd == 'string' and not all(c in d for c in compiled)]
+            return ms.last_applied() == 4 and {c + '_idx' for c in compiled} <= idx and not missing, missing
+        try:
+            Migrator(ms).up(req)
+            raised = False
+        except Exception:
+            raised = True
+        fired = st.collection.fail_next is None
+        st.collection.fail_next = None
+        out.evaluations += 1
+        out.count('mongo-step-fault:' + ('fired' if fired else 'not-reached'))
+        ver = ms.last_applied()
+        done, missing = complete()
+        problem = None
+        if raised and ver != 3:
+            problem = 'the request raised inside step 4 and the recorded version is %r (3 steps completed)' % ver
+        elif not raised and not done:
+            problem = ('the request returned, the recorded version is %r, and step 4 has not completed: documents %r have no '
+                       'compiled fields' % (ver, missing))
+        if problem is None:
+            try:
+                Migrator(ms).up(req)
+                done, missing = complete()
+                if not done:
+                    problem = 'after repeating the request: version %r, documents without compiled fields %r' % (ms.last_applied(), missing)
+                else:
+                    for i in range(npol):
+                        if st.get('p%d' % i) is None:
+                            problem = 'policy p%d cannot be read after the completed migration' % i
+            except Exception as e:
+                problem = 'repeating the request (no fault) raised %s' % type(e).__name__
+        if problem:
+            f = Failure('oracle', {'set': 'mongo', 'history': hist}, {'raised': raised, 'version': ver}, None, problem,
+                        'Vakt.C18.version_never_past_failed / resume')
+            f.signature = 'mongo-step-fault'
+            out.failures.append(f)
+            return
+        out.nontriv('mongo-fault ' + ' '.join(hist))
 
 
 def replay(ctx, rp):
